@@ -275,6 +275,9 @@ func (modComp) Exec(c *wire.Case, w *wire.Writer) {
 				if k := op.Str("share"); k != "" {
 					if _, ok := shared[k]; !ok {
 						shared[k] = parseStats(op.Str("stats"))
+						if shared[k] == nil {
+							shared[k] = info.NewPropMap() // a description built with an allocated, still empty map
+						}
 					}
 					st = shared[k]
 				} else {
@@ -460,6 +463,8 @@ func (modComp) Gen(r *rand.Rand, tier string, n int) []*wire.Case {
 		add(1, 27, 1, 0, 2, ""), add(1, 27, 2, 0, 2, ""), add(1, 27, 3, 0, 2, ""), wire.R("extcnt").I("t", 1).I("name", 27).I("n", 1))
 	mk("d-stats", add(1, 3, 1, 0, 0, atk), add(1, 3, 2, 0, 0, atk+"|"+red), add(1, 24, 1, 0, 0, ""), add(1, 19, 1, 0, 0, ""), add(1, 19, 1, 0, 0, ""), wire.R("rm").I("t", 1).I("name", 3),
 		wire.R("mutsnap").I("t", 1).I("p", int(prop.ATKPercent)).F("x", 5), wire.R("rm").I("t", 1).I("name", 19))
+	mk("d-shared-empty-desc", add(1, 3, 1, 0, 0, "").S("share", "e"), add(2, 3, 1, 0, 0, "").S("share", "e"), wire.R("instprop").I("t", 1).I("uid", 1).I("p", int(prop.ATKPercent)).F("x", 0.5),
+		add(3, 3, 1, 0, 0, "").S("share", "e"), wire.R("instprop").I("t", 3).I("uid", 3).I("p", int(prop.AllDamageReduce)).F("x", 0.1), add(2, 10, 1, 0, 0, "").S("share", "e"))
 	mk("d-shared-desc", add(1, 3, 1, 0, 0, atk).S("share", "a"), add(2, 3, 1, 0, 0, atk).S("share", "a"), wire.R("instprop").I("t", 1).I("uid", 1).I("p", int(prop.ATKPercent)).F("x", 0.5),
 		add(3, 3, 1, 0, 0, atk).S("share", "a"))
 	mk("d-invalid", add(9, 3, 1, 0, 0, ""), add(1, 3, 7, 0, 0, ""), wire.R("rm").I("t", 9).I("name", 3), wire.R("rmself").I("t", 1).I("uid", 5))
@@ -487,6 +492,8 @@ func (modComp) Gen(r *rand.Rand, tier string, n int) []*wire.Case {
 				}
 				if st != "" && r.Intn(3) == 0 {
 					op.S("share", pick(r, "a", "b")+st)
+				} else if st == "" && r.Intn(4) == 0 {
+					op.S("share", pick(r, "ea", "eb")) // one description with an empty map for several units
 				}
 				ops = append(ops, op)
 				adds++
